@@ -563,14 +563,22 @@ pub mod frames {
     #[async_trait]
     impl FrameReader for SocksFrameReader {
         async fn read(&mut self) -> IoResult<Option<Frame>> {
-            let mut buf = Frame::new();
-            let (_sz, addr) = buf.recv_from(&self.socket).await?;
-            if self.remote.is_none() {
-                self.socket.connect(addr).await?;
-                self.remote = Some(addr);
+            loop {
+                let mut buf = Frame::new();
+                let (_sz, addr) = buf.recv_from(&self.socket).await?;
+                if self.remote.is_none() {
+                    self.socket.connect(addr).await?;
+                    self.remote = Some(addr);
+                }
+                // RSV RSV FRAG ATYP: fragments are not reassembled here, and a piece of a datagram is not a
+                // datagram - it is dropped (RFC 1928), not forwarded as if it were complete
+                if buf.body.len() > 2 && buf.body[2] != 0 {
+                    tracing::debug!("socks udp: fragment {:#x} dropped", buf.body[2]);
+                    continue;
+                }
+                let buf = decode_socks_frame(buf)?;
+                return Ok(Some(buf));
             }
-            let buf = decode_socks_frame(buf)?;
-            Ok(Some(buf))
         }
     }
 
